@@ -138,7 +138,7 @@ impl LocalStats {
             c &= c - 1;
         }
         if let Some(v) = &run.violation {
-            if v.prop != prop {
+            if !v.is(prop) {
                 self.aborted_other += 1;
                 if self.aborted_example.is_none() {
                     self.aborted_example = Some(format!("{} {}: {}", v.prop, v.kind, v.detail));
